@@ -26,17 +26,26 @@ package main
 //   callback  script functions handed to Go as func-typed parameters
 //   calls     PRNG signatures (1-5 params, 0-3 results, variadic tails) x
 //             argument tuples x the four call shapes
+//   named, empty, cbconc: see c11_ext.go
 //
 // Outside the statement (kept out of the generator's domain or accepted both
 // ways; each place is marked UNSPECIFIED):
 //   * string -> uint8/int32 parameters (anko's documented string->byte/rune path)
 //   * pointer -> pointer of another type (anko converts the pointee; Go has no
 //     such conversion, the statement names only slices and maps as element-wise)
-//   * arrays as conversion source/target
+//   * arrays as conversion source/target: WHAT arrives is not judged (nil ->
+//     zero value and identity are); array-typed parameters are generated only
+//     once c11PendingFix_arrayParamPanic is false (a panic out of vm.Execute is
+//     neither "arrives" nor "fails with an error")
 //   * functions whose type coincides with anko's VM-function protocol
 //   * a spread list longer than the parameters of a fixed-arity function, a
-//     spread expression that is not a slice, a spread that would have to fill
-//     fixed parameters of a variadic function
+//     spread expression that is not a slice
+//   * a spread that would have to fill fixed parameters of a variadic function:
+//     refusing the call and spreading the list are both accepted; an invocation
+//     with the list itself as one argument is neither (generated only once
+//     c11PendingFix_spreadIntoFixedOfVariadic is false)
+//   * nil versus empty for the variadic tail the call builds itself and for a
+//     typed nil slice/map converted element-wise (see c11NilConv)
 //   * what a field write does when the value needs a conversion (accepted:
 //     error+unchanged, or Go's conversion), writes through a non-pointer
 //   * the script value of a call of a function without results
@@ -199,7 +208,20 @@ var (
 )
 
 // parameter/result type pool
-var c11Types = []reflect.Type{
+var c11Types = append(c11BaseTypes[:len(c11BaseTypes):len(c11BaseTypes)], c11ArrayTargets()...)
+
+// c11ArrayTargets: array-typed parameters. What arrives for a converted value is
+// UNSPECIFIED (the statement names only slices and maps as element-wise), but
+// nil -> zero value, identity and "no panic escapes, the function is not
+// invoked twice" are judged.
+func c11ArrayTargets() []reflect.Type {
+	if c11PendingFix_arrayParamPanic {
+		return nil
+	}
+	return []reflect.Type{reflect.TypeOf([2]int64{}), reflect.TypeOf([2]interface{}{}), reflect.TypeOf([1]string{})}
+}
+
+var c11BaseTypes = []reflect.Type{
 	reflect.TypeOf(int(0)), reflect.TypeOf(int8(0)), reflect.TypeOf(int16(0)), reflect.TypeOf(int32(0)), c11TInt64,
 	reflect.TypeOf(uint(0)), reflect.TypeOf(uint8(0)), reflect.TypeOf(uint16(0)), reflect.TypeOf(uint32(0)), reflect.TypeOf(uint64(0)),
 	reflect.TypeOf(float32(0)), reflect.TypeOf(float64(0)), c11TString, reflect.TypeOf(true),
@@ -229,8 +251,35 @@ func c11TypeLabel(t reflect.Type) string { return strings.ReplaceAll(t.String(),
 
 // ---------------------------------------------------------------------------
 // comparison: identical dynamic type and value; identity for pointers and
-// channels. lenientNil: a nil and an empty slice/map are the same (used where
-// the statement's "element-wise" does not say which of the two is built).
+// channels. How a nil and an empty slice/map compare depends on where the
+// expected value comes from:
+//
+//	c11NilExact  identity and Go's own conversions keep nil-ness: they differ.
+//	c11NilEither UNSPECIFIED places (the variadic tail the call itself builds,
+//	             what a variadic script function collects): never distinguished.
+//	c11NilConv   the expected value was built element-wise. A script list or map
+//	             of length 0 is an empty, NON-nil value and its element-wise
+//	             conversion is an empty non-nil container: an expected non-nil
+//	             container must arrive non-nil. An expected nil container stems
+//	             from a typed nil source, where "T's zero value for nil" and
+//	             "element-wise" both apply: nil and empty are both accepted.
+//	c11NilTail   c11NilEither at the top level, c11NilConv below it.
+const (
+	c11NilExact = iota
+	c11NilEither
+	c11NilConv
+	c11NilTail
+)
+
+func c11NilMismatch(mode int, got, want reflect.Value) bool {
+	switch mode {
+	case c11NilExact:
+		return got.IsNil() != want.IsNil()
+	case c11NilConv:
+		return got.IsNil() && !want.IsNil()
+	}
+	return false
+}
 
 func c11Unwrap(v reflect.Value) reflect.Value {
 	for v.IsValid() && v.Kind() == reflect.Interface {
@@ -242,7 +291,7 @@ func c11Unwrap(v reflect.Value) reflect.Value {
 	return v
 }
 
-func c11Diff(got, want reflect.Value, lenientNil bool, path string, depth int) string {
+func c11Diff(got, want reflect.Value, mode int, path string, depth int) string {
 	got, want = c11Unwrap(got), c11Unwrap(want)
 	if !got.IsValid() || !want.IsValid() {
 		if got.IsValid() != want.IsValid() {
@@ -296,26 +345,32 @@ func c11Diff(got, want reflect.Value, lenientNil bool, path string, depth int) s
 			return bad()
 		}
 	case reflect.Slice:
-		if !lenientNil && got.IsNil() != want.IsNil() {
-			return bad()
+		if c11NilMismatch(mode, got, want) {
+			return path + ": nil-ness differs: got " + c11NilText(got) + ", want " + c11NilText(want)
+		}
+		if mode == c11NilTail {
+			mode = c11NilConv
 		}
 		if got.Len() != want.Len() {
 			return bad()
 		}
 		for i := 0; i < got.Len(); i++ {
-			if d := c11Diff(got.Index(i), want.Index(i), lenientNil, path+"["+strconv.Itoa(i)+"]", depth+1); d != "" {
+			if d := c11Diff(got.Index(i), want.Index(i), mode, path+"["+strconv.Itoa(i)+"]", depth+1); d != "" {
 				return d
 			}
 		}
 	case reflect.Array:
 		for i := 0; i < got.Len(); i++ {
-			if d := c11Diff(got.Index(i), want.Index(i), lenientNil, path+"["+strconv.Itoa(i)+"]", depth+1); d != "" {
+			if d := c11Diff(got.Index(i), want.Index(i), mode, path+"["+strconv.Itoa(i)+"]", depth+1); d != "" {
 				return d
 			}
 		}
 	case reflect.Map:
-		if !lenientNil && got.IsNil() != want.IsNil() {
-			return bad()
+		if c11NilMismatch(mode, got, want) {
+			return path + ": nil-ness differs: got " + c11NilText(got) + ", want " + c11NilText(want)
+		}
+		if mode == c11NilTail {
+			mode = c11NilConv
 		}
 		if got.Len() != want.Len() {
 			return bad()
@@ -326,7 +381,7 @@ func c11Diff(got, want reflect.Value, lenientNil bool, path string, depth int) s
 			if !gv.IsValid() {
 				return fmt.Sprintf("%s: key %s missing: got %s, want %s", path, ank.RenderValue(it.Key()), ank.RenderValue(got), ank.RenderValue(want))
 			}
-			if d := c11Diff(gv, it.Value(), lenientNil, path+"["+ank.RenderValue(it.Key())+"]", depth+1); d != "" {
+			if d := c11Diff(gv, it.Value(), mode, path+"["+ank.RenderValue(it.Key())+"]", depth+1); d != "" {
 				return d
 			}
 		}
@@ -335,12 +390,20 @@ func c11Diff(got, want reflect.Value, lenientNil bool, path string, depth int) s
 			if got.Type().Field(i).PkgPath != "" {
 				continue
 			}
-			if d := c11Diff(got.Field(i), want.Field(i), lenientNil, path+"."+got.Type().Field(i).Name, depth+1); d != "" {
+			if d := c11Diff(got.Field(i), want.Field(i), mode, path+"."+got.Type().Field(i).Name, depth+1); d != "" {
 				return d
 			}
 		}
 	}
 	return ""
+}
+
+// c11NilText renders a slice/map with its nil-ness (ank.RenderValue shows both as empty).
+func c11NilText(v reflect.Value) string {
+	if v.IsNil() {
+		return v.Type().String() + "(nil)"
+	}
+	return "non-nil " + v.Type().String() + " " + ank.RenderValue(v)
 }
 
 // ---------------------------------------------------------------------------
@@ -357,7 +420,7 @@ const (
 type c11Conv struct {
 	st      int
 	v       reflect.Value // of type exactly T when st == c11OK && !adapter
-	lenient bool          // built element-wise: nil vs empty containers not distinguished
+	mode    int           // how nil and empty containers compare (c11NilExact unless built element-wise)
 	adapter bool          // script function -> Go func type: a non-nil func of type T
 	why     string
 }
@@ -396,7 +459,12 @@ func c11RefConvert(v reflect.Value, t reflect.Type) c11Conv {
 		return c11Conv{st: c11OK, v: v.Convert(t)} // Go's own conversion
 	}
 	if vt.Kind() == reflect.Slice && t.Kind() == reflect.Slice {
-		out := reflect.MakeSlice(t, v.Len(), v.Len())
+		// a non-nil source (a script list of length 0 included) gives a non-nil
+		// slice; a typed nil source gives T's zero value (compared leniently)
+		out := reflect.Zero(t)
+		if !v.IsNil() {
+			out = reflect.MakeSlice(t, v.Len(), v.Len())
+		}
 		for i := 0; i < v.Len(); i++ {
 			ec := c11RefConvert(v.Index(i), t.Elem())
 			if ec.st != c11OK {
@@ -407,9 +475,12 @@ func c11RefConvert(v reflect.Value, t reflect.Type) c11Conv {
 			}
 			out.Index(i).Set(ec.v)
 		}
-		return c11Conv{st: c11OK, v: out, lenient: true}
+		return c11Conv{st: c11OK, v: out, mode: c11NilConv}
 	}
 	if vt.Kind() == reflect.Map && t.Kind() == reflect.Map {
+		if v.IsNil() {
+			return c11Conv{st: c11OK, v: reflect.Zero(t), mode: c11NilConv}
+		}
 		out := reflect.MakeMap(t)
 		st, why := c11OK, ""
 		it := v.MapRange()
@@ -438,7 +509,7 @@ func c11RefConvert(v reflect.Value, t reflect.Type) c11Conv {
 		if st != c11OK {
 			return c11Conv{st: st, why: why}
 		}
-		return c11Conv{st: c11OK, v: out, lenient: true}
+		return c11Conv{st: c11OK, v: out, mode: c11NilConv}
 	}
 	if vt.Kind() == reflect.Func && t.Kind() == reflect.Func {
 		if c11IsScriptFunc(vt) && !v.IsNil() {
@@ -659,6 +730,11 @@ func c11Sources() []c11Src {
 		c11Src{mk: func() interface{} { return func(a int64, b string) (int64, error) { return a, nil } }},
 		c11Src{mk: func() interface{} { return func() {} }},
 	)
+	// empty containers nested in lists and maps, empty typed Go containers of
+	// another element type, named slice / map types
+	lit(`{"a": []}`, `{"a": {}}`, "[[], [1]]", "[{}]", `{"a": [], "b": nil}`)
+	bind([]int8{}, []int8(nil), map[string]int8{}, map[string]int8(nil), [][]int8{{}, nil}, map[string][]int8{"e": {}, "n": nil},
+		C11Ints{3, 4}, C11Dict{"d": 5}, C11Color("red"), C11Cnt(9))
 	return s
 }
 
@@ -799,6 +875,8 @@ func (k *c11Call) shape() string {
 		return "fixed/spread1"
 	case k.spread == nil:
 		return "variadic/plain"
+	case len(k.pre) < k.ft.NumIn()-1:
+		return "variadic/spreadN" // the spread list has to fill fixed parameters too
 	}
 	return "variadic/spread"
 }
@@ -812,6 +890,7 @@ type c11Expect struct {
 	cell    string // "<src>-><dst>" of the argument that decides (first unconvertible one)
 	cellIdx int
 	nilptr  bool // some argument is a typed nil pointer headed for another pointer type
+	orError bool // an error with zero invocations is accepted as well
 }
 
 func c11Elems(v reflect.Value) []reflect.Value {
@@ -909,7 +988,9 @@ func (k *c11Call) expect0() c11Expect {
 		}
 		et := ft.In(m).Elem()
 		tail := reflect.MakeSlice(ft.In(m), 0, len(supplied)-m)
-		tailC := c11Conv{st: c11OK, lenient: true}
+		// UNSPECIFIED whether the tail the call builds is nil or empty when no
+		// argument is left for it; its elements are converted values
+		tailC := c11Conv{st: c11OK, mode: c11NilTail}
 		for i := m; i < len(supplied); i++ {
 			cv := c11RefConvert(supplied[i], et)
 			if cv.adapter {
@@ -932,9 +1013,44 @@ func (k *c11Call) expect0() c11Expect {
 		ex.args = append(ex.args, tailC)
 		return ex
 	}
+	if len(supplied) < m && !c11PendingFix_spreadIntoFixedOfVariadic {
+		// UNSPECIFIED: Go refuses f(xs...) when fixed parameters are missing; the
+		// statement does not say that the list fills them. Both readings are
+		// accepted: the call fails without invoking the function, or the function
+		// is invoked with exactly the supplied arguments (the plain ones followed
+		// by the ELEMENTS of the list). What no reading allows is an invocation
+		// with something that was not supplied, e.g. the list itself as one argument.
+		sv := c11Unwrap(k.spread.v)
+		if !sv.IsValid() || sv.Kind() != reflect.Slice {
+			return c11Expect{kind: c11Unspec, why: "spread of a non-slice"}
+		}
+		supplied = append(supplied, c11Elems(sv)...)
+		if len(supplied) < m {
+			return c11Expect{kind: c11None, arity: true, why: fmt.Sprintf("%d arguments for %d fixed parameters", len(supplied), m)}
+		}
+		ex.orError = true
+		for i := 0; i < m; i++ {
+			conv(supplied[i], ft.In(i), i)
+		}
+		et := ft.In(m).Elem()
+		tail := reflect.MakeSlice(ft.In(m), 0, len(supplied)-m)
+		for i := m; i < len(supplied); i++ {
+			cv := c11RefConvert(supplied[i], et)
+			if cv.st != c11OK || cv.adapter {
+				return c11Expect{kind: c11Unspec, why: "spread into fixed parameters: tail element not plainly convertible"}
+			}
+			tail = reflect.Append(tail, cv.v)
+		}
+		ex.args = append(ex.args, c11Conv{st: c11OK, v: tail, mode: c11NilTail})
+		if ex.kind == c11None {
+			// an unconvertible element: error and zero invocations under both readings
+			ex.orError = false
+		}
+		return ex
+	}
 	if len(supplied) != m {
-		// UNSPECIFIED: Go refuses f(xs...) when fixed parameters are missing;
-		// the statement does not say that the list fills them.
+		// UNSPECIFIED, as above (more plain arguments than fixed parameters
+		// followed by a spread: not generated)
 		return c11Expect{kind: c11Unspec, why: "spread does not sit at the variadic parameter"}
 	}
 	sv := c11Unwrap(k.spread.v)
@@ -1058,7 +1174,7 @@ func (k *c11Call) run(c *wk.Case, e *env.Env) c11Verdict {
 			case pred == "invoked" && !o.Panicked && o.Err == nil && rec.calls == 1 && len(rec.args[0]) == len(pargs):
 				same := true
 				for i := range pargs {
-					if c11Diff(rec.args[0][i], pargs[i], true, "", 0) != "" {
+					if c11Diff(rec.args[0][i], pargs[i], c11NilEither, "", 0) != "" {
 						same = false
 					}
 				}
@@ -1088,6 +1204,9 @@ func (k *c11Call) run(c *wk.Case, e *env.Env) c11Verdict {
 		}
 		return vd
 	}
+	if ex.orError && o.Err != nil && rec.calls == 0 {
+		return vd // the other accepted reading: refused without invoking the function
+	}
 	if o.Err != nil {
 		return fail("unexpected-error", fmt.Sprintf("a conversion exists for every argument, yet the call failed: %q (invocations: %d)", o.Err.Error(), rec.calls))
 	}
@@ -1107,7 +1226,7 @@ func (k *c11Call) run(c *wk.Case, e *env.Env) c11Verdict {
 			}
 			continue
 		}
-		if d := c11Diff(got[i], w.v, w.lenient, "argument "+strconv.Itoa(i), 0); d != "" {
+		if d := c11Diff(got[i], w.v, w.mode, "argument "+strconv.Itoa(i), 0); d != "" {
 			vd.ex.cellIdx = i
 			return fail("wrong-args", d)
 		}
@@ -1124,7 +1243,7 @@ func (k *c11Call) run(c *wk.Case, e *env.Env) c11Verdict {
 	case nOut == 0:
 		// UNSPECIFIED: the script value of a call without results
 	case nOut == 1:
-		if d := c11Diff(reflect.ValueOf(o.Val), rec.results[0], false, "result", 0); d != "" {
+		if d := c11Diff(reflect.ValueOf(o.Val), rec.results[0], c11NilExact, "result", 0); d != "" {
 			return fail("wrong-result", d)
 		}
 	default:
@@ -1133,7 +1252,7 @@ func (k *c11Call) run(c *wk.Case, e *env.Env) c11Verdict {
 			return fail("wrong-result", fmt.Sprintf("%d results must come back as a list of %d, got %s", nOut, nOut, ank.Render(o.Val)))
 		}
 		for i := range lst {
-			if d := c11Diff(reflect.ValueOf(lst[i]), rec.results[i], false, "result "+strconv.Itoa(i), 0); d != "" {
+			if d := c11Diff(reflect.ValueOf(lst[i]), rec.results[i], c11NilExact, "result "+strconv.Itoa(i), 0); d != "" {
 				return fail("wrong-result", d)
 			}
 		}
@@ -1219,7 +1338,14 @@ func (k *c11Call) judge(c *wk.Case, e *env.Env, prefix string, cellArg int) c11V
 		if cell == "" {
 			var v reflect.Value
 			var t reflect.Type
+			nFixed := k.ft.NumIn()
+			if k.ft.IsVariadic() {
+				nFixed--
+			}
 			switch {
+			case vd.failure == "wrong-args" && vd.ex.cellIdx >= 0 && vd.ex.cellIdx < nFixed && vd.ex.cellIdx < len(k.pre):
+				// the fixed parameter whose argument arrived wrong
+				v, t = k.pre[vd.ex.cellIdx].v, k.ft.In(vd.ex.cellIdx)
 			case k.spread != nil && k.ft.IsVariadic():
 				v, t = k.spread.v, k.ft.In(k.ft.NumIn()-1)
 			case k.spread != nil:
@@ -1422,7 +1548,16 @@ func c11RandomCall(c *wk.Case, ce *c11Env, rec *c11Rec) *c11Call {
 		return k
 	}
 	var lst c11Val
-	if r.Intn(2) == 0 {
+	if !c11PendingFix_spreadIntoFixedOfVariadic && m > 0 && r.Intn(6) == 0 {
+		// the list starts with the last `move` fixed arguments
+		move := 1 + r.Intn(m)
+		rest := append([]c11Val{}, k.pre[m-move:]...)
+		k.pre = k.pre[:m-move]
+		for j := r.Intn(3); j > 0; j-- {
+			rest = append(rest, ce.arg(ce.pick(r, et, pOK), inl()))
+		}
+		lst = c11ListOf(rest)
+	} else if r.Intn(2) == 0 {
 		var rest []c11Val
 		for j := r.Intn(4); j > 0; j-- {
 			rest = append(rest, ce.arg(ce.pick(r, et, pOK), inl()))
@@ -1521,7 +1656,7 @@ func c11PhaseRoundtrip(c *wk.Case) {
 			case o.Err != nil:
 				c11Report(c, sig+":error", "the value did not come back: "+o.Err.Error(), input)
 			default:
-				d := c11Diff(reflect.ValueOf(o.Val), reflect.ValueOf(gi), false, "value", 0)
+				d := c11Diff(reflect.ValueOf(o.Val), reflect.ValueOf(gi), c11NilExact, "value", 0)
 				if d == "" && gi != nil && reflect.TypeOf(gi) == reflect.TypeOf((func(int64) int64)(nil)) && !reflect.ValueOf(gi).IsNil() {
 					// a func value is identified by behaviour
 					var a, b int64
@@ -1608,7 +1743,7 @@ func c11PhaseMember(c *wk.Case) {
 		case o.Err != nil:
 			c11Report(c, sig+"error", "reading an exported field failed: "+o.Err.Error(), input)
 		default:
-			if d := c11Diff(reflect.ValueOf(o.Val), want, false, "field "+name, 0); d != "" {
+			if d := c11Diff(reflect.ValueOf(o.Val), want, c11NilExact, "field "+name, 0); d != "" {
 				c11Report(c, sig+"wrong-value", d, input)
 			}
 		}
@@ -1660,7 +1795,7 @@ func c11PhaseMember(c *wk.Case) {
 				if fn == name || (name == "Z" && fn == "C11Inner") || (name == "C11Inner" && fn == "Z") {
 					continue
 				}
-				if d := c11Diff(reflect.ValueOf(after).Field(i), reflect.ValueOf(before).Field(i), false, "field "+fn, 0); d != "" {
+				if d := c11Diff(reflect.ValueOf(after).Field(i), reflect.ValueOf(before).Field(i), c11NilExact, "field "+fn, 0); d != "" {
 					other = d
 				}
 			}
@@ -1668,7 +1803,7 @@ func c11PhaseMember(c *wk.Case) {
 				c11Report(c, sig+"other-field-changed", "writing "+name+" changed another field: "+other, input)
 				continue
 			}
-			unchanged := c11Diff(reflect.ValueOf(after).FieldByName(name), reflect.ValueOf(before).FieldByName(name), false, "", 0) == ""
+			unchanged := c11Diff(reflect.ValueOf(after).FieldByName(name), reflect.ValueOf(before).FieldByName(name), c11NilExact, "", 0) == ""
 			cv := c11RefConvert(a.v, ft)
 			av := c11Unwrap(a.v)
 			switch {
@@ -1681,7 +1816,7 @@ func c11PhaseMember(c *wk.Case) {
 			case av.IsValid() && av.Type().AssignableTo(ft):
 				if o.Err != nil {
 					c11Report(c, sig+"error", "writing an assignable value through a pointer failed: "+o.Err.Error(), input)
-				} else if d := c11Diff(reflect.ValueOf(after).FieldByName(name), cv.v, false, "field "+name, 0); d != "" {
+				} else if d := c11Diff(reflect.ValueOf(after).FieldByName(name), cv.v, c11NilExact, "field "+name, 0); d != "" {
 					c11Report(c, sig+"wrong-value", "after the write the Go field does not hold the value: "+d, input)
 				}
 			default:
@@ -1695,7 +1830,7 @@ func c11PhaseMember(c *wk.Case) {
 					if f := reflect.ValueOf(after).FieldByName(name); f.Kind() != reflect.Func || f.IsNil() {
 						c11Report(c, sig+"wrong-value", "func field not set", input)
 					}
-				} else if d := c11Diff(reflect.ValueOf(after).FieldByName(name), cv.v, cv.lenient, "field "+name, 0); d != "" {
+				} else if d := c11Diff(reflect.ValueOf(after).FieldByName(name), cv.v, cv.mode, "field "+name, 0); d != "" {
 					c11Report(c, sig+"wrong-value", "after the converting write: "+d, input)
 				}
 			}
@@ -1764,7 +1899,7 @@ func c11PhaseMember(c *wk.Case) {
 			}
 		case m.inner:
 			k.recvCheck = func(recv, snap interface{}) string {
-				return c11Diff(reflect.ValueOf(recv), reflect.ValueOf(hh.val().C11Inner), false, "receiver", 0)
+				return c11Diff(reflect.ValueOf(recv), reflect.ValueOf(hh.val().C11Inner), c11NilExact, "receiver", 0)
 			}
 		case m.ptrRcv:
 			k.recvCheck = func(recv, snap interface{}) string {
@@ -1779,11 +1914,11 @@ func c11PhaseMember(c *wk.Case) {
 					return ""
 				}
 				// UNSPECIFIED whether it is the value itself or a copy; its content is the value's
-				return c11Diff(reflect.ValueOf(snap), reflect.ValueOf(hh.val()), false, "receiver", 0)
+				return c11Diff(reflect.ValueOf(snap), reflect.ValueOf(hh.val()), c11NilExact, "receiver", 0)
 			}
 		default:
 			k.recvCheck = func(recv, snap interface{}) string {
-				return c11Diff(reflect.ValueOf(recv), reflect.ValueOf(hh.val()), false, "receiver", 0)
+				return c11Diff(reflect.ValueOf(recv), reflect.ValueOf(hh.val()), c11NilExact, "receiver", 0)
 			}
 		}
 		rk := "value-method"
@@ -2048,7 +2183,7 @@ func c11RunCb(c *wk.Case, ce *c11Env, sp c11CbSpec) {
 			}
 			want = reflect.ValueOf(lst)
 		}
-		if d := c11Diff(reflect.ValueOf(probed[k]), want, true, fmt.Sprintf("invocation %d arguments", k), 0); d != "" {
+		if d := c11Diff(reflect.ValueOf(probed[k]), want, c11NilEither, fmt.Sprintf("invocation %d arguments", k), 0); d != "" {
 			c11Report(c, pre+"args-differ", "the script function did not receive the arguments Go passed: "+d, input)
 			return
 		}
@@ -2069,7 +2204,7 @@ func c11RunCb(c *wk.Case, ce *c11Env, sp c11CbSpec) {
 	for k := 0; k < returned; k++ {
 		for i := 0; i < nOut; i++ {
 			cv := c11RefConvert(ce.vals[sp.rets[i]].v, ft.Out(i))
-			if d := c11Diff(outs[k][i], cv.v, cv.lenient, fmt.Sprintf("invocation %d result %d", k, i), 0); d != "" {
+			if d := c11Diff(outs[k][i], cv.v, cv.mode, fmt.Sprintf("invocation %d result %d", k, i), 0); d != "" {
 				c11Report(c, pre+"result-not-converted", "Go did not get the script result converted to the declared type: "+d, input)
 				return
 			}
@@ -2091,7 +2226,7 @@ func c11RunCb(c *wk.Case, ce *c11Env, sp c11CbSpec) {
 		}
 		switch {
 		case nOut == 1:
-			if d := c11Diff(reflect.ValueOf(res), outs[len(outs)-1][0], false, "enclosing result", 0); d != "" {
+			if d := c11Diff(reflect.ValueOf(res), outs[len(outs)-1][0], c11NilExact, "enclosing result", 0); d != "" {
 				c11Report(c, pre+"outer-result", d, input)
 			}
 		case nOut > 1:
@@ -2101,7 +2236,7 @@ func c11RunCb(c *wk.Case, ce *c11Env, sp c11CbSpec) {
 				return
 			}
 			for i := range lst {
-				if d := c11Diff(reflect.ValueOf(lst[i]), outs[len(outs)-1][i], false, "enclosing result "+strconv.Itoa(i), 0); d != "" {
+				if d := c11Diff(reflect.ValueOf(lst[i]), outs[len(outs)-1][i], c11NilExact, "enclosing result "+strconv.Itoa(i), 0); d != "" {
 					c11Report(c, pre+"outer-result", d, input)
 					return
 				}
@@ -2180,10 +2315,97 @@ func c11PhaseFixed(c *wk.Case) {
 			sp.badPos, sp.badSrc = 0, ce.cells(sp.ft.Out(0)).none[0]
 			c11RunCb(c, ce, sp)
 		}
+	case 7: // a spread list that has to fill FIXED parameters of a variadic function: refused, or spread - never passed whole
+		if c11PendingFix_spreadIntoFixedOfVariadic {
+			c.Excluded("pending repair: spread into fixed parameters of a variadic function")
+			return
+		}
+		l3 := c11ListOf([]c11Val{one, two, three})
+		l2 := c11ListOf([]c11Val{two, three})
+		l1 := c11ListOf([]c11Val{one})
+		(&c11Call{callee: "f", ft: fn((func(interface{}, ...interface{}) int64)(nil)), spread: &l3, rec: rec}).judge(c, ce.e, "call", 0)
+		(&c11Call{callee: "f", ft: fn((func(interface{}, ...interface{}) int64)(nil)), spread: &l1, rec: rec}).judge(c, ce.e, "call", 0)
+		(&c11Call{callee: "f", ft: fn((func(int64, int64, ...int64) int64)(nil)), pre: []c11Val{one}, spread: &l2, rec: rec}).judge(c, ce.e, "call", 0)
+		(&c11Call{callee: "f", ft: fn((func([]interface{}, ...int64) int64)(nil)), spread: &l3, rec: rec}).judge(c, ce.e, "call", 0)
+		ps := &C11S{A: 1}
+		ce.e.Define("ps", ps)
+		ft := reflect.ValueOf(ps).MethodByName("PVar").Type()
+		rec.results = c11GenResults(c.Rng, ft)
+		ls := c11ListOf([]c11Val{lit(`"p"`, "p"), one, two})
+		(&c11Call{callee: "ps.PVar", ft: ft, spread: &ls, rec: rec}).judge(c, ce.e, "member:pointer-method@pointer", 0)
+	case 8: // fields promoted through an embedded POINTER
+		in := &C11Emb{Name: "n" + strconv.Itoa(c.Rng.Intn(100)), N: int64(c.Rng.Intn(100))}
+		ce.e.Define("o", &C11Outer{C11Emb: in, Own: 5})
+		ce.e.Define("onil", &C11Outer{Own: 6})
+		type row struct {
+			src  string
+			want interface{}
+			nilE bool
+		}
+		rows := []row{{"o.Name", in.Name, false}, {"o.N", in.N, false}, {"o.Own", int64(5), false}, {`o.Name = "w"; o.Name`, "w", false}, {"onil.Own", int64(6), false},
+			{"onil.Name", nil, true}, {`onil.Name = "x"`, nil, true}, {"onil.N", nil, true}}
+		for _, rw := range rows {
+			if rw.nilE && c11PendingFix_nilEmbeddedPanic {
+				c.Excluded("pending repair: field promoted through a nil embedded pointer")
+				continue
+			}
+			c.Begin(rw.src)
+			o := ank.Exec(ce.e, rw.src)
+			c.Events(1)
+			c.Eval("embedded-pointer|"+rw.src+"|"+ank.Render(rw.want), true)
+			input := map[string]interface{}{"src": rw.src, "want": ank.Render(rw.want), "got": ank.Render(o.Val), "err": ank.ErrText(o.Err), "panic": o.PanicVal}
+			switch {
+			case o.Panicked:
+				kind := "embedded-pointer"
+				if rw.nilE {
+					kind = "nil-embedded-pointer"
+				}
+				c11Report(c, "member:"+kind+":panic", "panic escaped vm.Execute: "+o.PanicVal+" ["+o.PanicSig+"]", input)
+			case rw.nilE:
+				// UNSPECIFIED what a field that Go itself cannot reach yields; Go's own
+				// o.Name is a nil dereference. Only a panic out of vm.Execute is judged.
+			case o.Err != nil:
+				c11Report(c, "member:embedded-pointer:error", "reading/writing a field promoted through an embedded pointer failed: "+o.Err.Error(), input)
+			default:
+				if d := c11Diff(reflect.ValueOf(o.Val), reflect.ValueOf(rw.want), c11NilExact, "field", 0); d != "" {
+					c11Report(c, "member:embedded-pointer:wrong-value", d, input)
+				}
+			}
+		}
+		if in.Name != "w" {
+			c11Report(c, "member:embedded-pointer:write-lost", "o.Name = \"w\" through a pointer did not reach the Go value's own field: "+in.Name, map[string]interface{}{"src": `o.Name = "w"`})
+		}
+	case 9: // array-typed parameters: what arrives is UNSPECIFIED, a panic out of vm.Execute is not
+		if c11PendingFix_arrayParamPanic {
+			c.Excluded("pending repair: array-typed parameters")
+			return
+		}
+		ce.e.Define("short", []int64{1})
+		ce.e.Define("long", []int64{1, 2, 3})
+		short := c11Val{text: "short", v: reflect.ValueOf([]int64{1}), label: "[]int64"}
+		long := c11Val{text: "long", v: reflect.ValueOf([]int64{1, 2, 3}), label: "[]int64"}
+		l3 := c11ListOf([]c11Val{one, two, three})
+		l1 := c11ListOf([]c11Val{one})
+		for _, a := range []c11Val{l3, l1, short, long, lit("nil", nil), lit(`"ab"`, "ab")} {
+			(&c11Call{callee: "f", ft: fn((func([2]int64) int64)(nil)), pre: []c11Val{a}, rec: rec}).judge(c, ce.e, "call", 0)
+			(&c11Call{callee: "f", ft: fn((func(int64, ...[2]int64) int64)(nil)), pre: []c11Val{one, a}, rec: rec}).judge(c, ce.e, "call", 0)
+			(&c11Call{callee: "f", ft: fn((func([][2]int64) int64)(nil)), pre: []c11Val{c11ListOf([]c11Val{a})}, rec: rec}).judge(c, ce.e, "call", 0)
+		}
 	}
 }
 
-const c11NFixed = 7
+// C11Outer promotes the fields of C11Emb through an embedded pointer.
+type C11Emb struct {
+	Name string
+	N    int64
+}
+
+type C11Outer struct {
+	*C11Emb
+	Own int64
+}
+
+const c11NFixed = 10
 
 func init() {
 	nAll := len(c11Types) + len(c11TravelTypes)
@@ -2191,19 +2413,28 @@ func init() {
 		ID: "C11",
 		Plan: func(tier string) fw.Plan {
 			nCalls, nMember, nCb, rtRounds := 1000, 150, 300, 2
+			// the -race flavour of cbconc costs a second build of the worker: thorough tier only
+			nNamed, nConc, nConcRace, namedChunk := len(c11NamedTypes), 3*len(c11ConcVariants), 0, 1
 			if tier == "thorough" {
 				nCalls, nMember, nCb, rtRounds = 40000, 6000, 15000, 20
+				nNamed, nConc, nConcRace, namedChunk = 25*len(c11NamedTypes), 60*len(c11ConcVariants), 5*len(c11ConcVariants), 5
 			}
-			return fw.Plan{
+			plan := fw.Plan{
 				Level: "exploration",
 				Rule: "Go functions are manufactured with reflect.MakeFunc over a pool of " + strconv.Itoa(len(c11Types)) + " parameter/result types; their body records every invocation. " +
 					"conv: every (source value, target type) cell of " + strconv.Itoa(len(c11Srcs)) + " script/Go source values x the type pool, under 11 single-varying-argument call forms covering the four call shapes (complete enumeration, sources by name and written inline). " +
 					"calls: PRNG signatures (1-5 params, 0-3 results, 40% variadic) x PRNG argument tuples x plain/spread calls, 25 calls per case. roundtrip: PRNG values of every pool type x 13 routes. " +
 					"member: PRNG struct contents; every exported field read through 6 holders, written through pointers, 10 methods (value/pointer receiver, promoted, variadic, spread). callback: 14 func types x 5 result modes. " +
+					"named: " + strconv.Itoa(len(c11NamedTypes)) + " travellers (named types of every basic kind with value- and pointer-receiver methods, json.Number, time.Duration, unnamed controls) x 21 Go locations (fields behind pointers, typed slice/array elements, map values, interface slots, pointees) x " + strconv.Itoa(len(c11Hops)) + " binding hops x every sink (read back, Go interface{}/typed/variadic parameter, Go container, value/pointer-receiver method), complete per case with PRNG values. " +
+					"empty: " + strconv.Itoa(len(c11EmptySrcs)) + " empty/nil container sources (script and Go, nested one level) x every field type of C11Doc x parameter / second parameter / variadic element / spread / method parameter / field write / callback result (complete). " +
+					"cbconc: one adapted callback invoked from 4-12 goroutines x 400-900 calls each with pairwise distinct arguments, 8 callback types; each invocation compares the echo with what it passed (thorough tier: the same cases once more in a -race build, phase cbconc-race). " +
 					"An evaluation is non-trivial when the statement decides the case (conversion exists for all arguments, or none exists for one); distinct = distinct (Go signature, source text, argument values).",
 				Assumptions: []string{"reflect.Type.AssignableTo/ConvertibleTo and reflect.Value.Convert are 'Go's own conversion'",
 					"string->byte/rune parameters, pointer->other-pointer conversions, arrays, over-long spread lists, VM-protocol-typed Go functions are outside the statement and not judged",
-					"identity of func values is not observable through reflect; nil-ness and (for func(int64) int64 travellers) behaviour are compared"},
+					"identity of func values is not observable through reflect; nil-ness and (for func(int64) int64 travellers) behaviour are compared",
+					"a script list or map of length 0 is an empty NON-nil value: its element-wise conversion must arrive non-nil; for a typed nil Go slice/map converted element-wise nil and empty are both accepted; the variadic tail the call builds itself is never judged for nil-ness",
+					"cbconc judges values only: whether a defective adapter shows depends on the schedule, a correct one is accepted under every schedule; the script function touches no shared script state",
+					"kept out of the domain until /repo is repaired (constants c11PendingFix_* in c11_ext.go, reported in C11-genuine.md): pointer-receiver methods of non-struct named types on non-pointer values, a spread list that has to fill fixed parameters of a variadic function, array-typed parameters, fields promoted through a nil embedded pointer"},
 				Phases: []fw.Phase{
 					{Name: "fixed", Cases: c11NFixed, Chunk: 1, Exhaust: true, TimeoutS: 300},
 					{Name: "conv", Cases: 2 * len(c11Types), Chunk: 4, Exhaust: true, TimeoutS: 900},
@@ -2211,8 +2442,15 @@ func init() {
 					{Name: "member", Cases: nMember, Chunk: 25, TimeoutS: 900},
 					{Name: "callback", Cases: nCb, Chunk: 50, TimeoutS: 900},
 					{Name: "calls", Cases: nCalls, Chunk: 50, TimeoutS: 1800},
+					{Name: "named", Cases: nNamed, Chunk: namedChunk, TimeoutS: 900},
+					{Name: "empty", Cases: reflect.TypeOf(C11Doc{}).NumField(), Chunk: 1, Exhaust: true, TimeoutS: 600},
+					{Name: "cbconc", Cases: nConc, Chunk: 4, TimeoutS: 900},
 				},
 			}
+			if nConcRace > 0 {
+				plan.Phases = append(plan.Phases, fw.Phase{Name: "cbconc-race", Race: true, Cases: nConcRace, Chunk: 4, TimeoutS: 900})
+			}
+			return plan
 		},
 		Run: func(c *wk.Case) {
 			switch c.Phase {
@@ -2228,6 +2466,12 @@ func init() {
 				c11PhaseCallback(c)
 			case "calls":
 				c11PhaseCalls(c)
+			case "named":
+				c11PhaseNamed(c)
+			case "empty":
+				c11PhaseEmpty(c)
+			case "cbconc", "cbconc-race":
+				c11PhaseCbConc(c)
 			}
 		},
 	})
